@@ -217,4 +217,32 @@ Example slice_ok_after_newline :
 Proof. vm_compute. repeat split. Qed.
 
 Print Assumptions slice_is_token_text.
+(* ---- the line-offset table, as FormatContext::new computes it, for EVERY source (carriage returns are
+   ordinary characters here: the entry of a line is the byte index of its first character, i.e. one past the
+   preceding '\n', whatever precedes that '\n') *)
+Theorem line_offsets_spec : forall pre rest,
+  has_nl pre = true ->
+  exists v,
+    nth_error (line_offsets (pre ++ rest)) (N.to_nat (count_nl pre)) = Some v /\
+    v + byte_len (line_prefix pre) = byte_len pre.
+Proof.
+  intros pre rest H. unfold line_offsets.
+  destruct (lo_nth pre rest 0 0) as [v [Hn [Ht _]]].
+  exists v. split; [exact Hn|]. rewrite (Ht H). reflexivity.
+Qed.
+
+(* `a\r\nbc\r\n`: lines start at bytes 0, 3, 7 (NOT at 0, 2, 5: a table built from the lengths of the
+   lines without their terminators + 1 would be wrong on CR LF sources) *)
+Example line_offsets_crlf : line_offsets [97; 13; 10; 98; 99; 13; 10] = [0; 3; 7].
+Proof. vm_compute. reflexivity. Qed.
+
+(* `x = 1 # one\r\ny = 22\r\n`: the number on the second line of a CR LF source is re-read exactly *)
+Example slice_crlf :
+  let pre := [120;32;61;32;49;32;35;32;111;110;101;13;10;121;32;61;32] in
+  tok_span w_demo pre [50;50] = (1, 4, 1, 6) /\
+  source_slice (pre ++ [50;50] ++ [13;10]) (tok_span w_demo pre [50;50]) = SliceOk [50;50].
+Proof. vm_compute. split; reflexivity. Qed.
+
+Print Assumptions line_offsets_spec.
+
 Print Assumptions slice_refuted.
